@@ -110,6 +110,15 @@ func (a *AuthenStart) Validate() error {
 			return err
 		}
 	}
+	// every variable length field of this packet has a one octet length
+	for _, f := range []struct {
+		name string
+		n    int
+	}{{"user", a.User.Len()}, {"port", a.Port.Len()}, {"rem_addr", a.RemAddr.Len()}, {"data", a.Data.Len()}} {
+		if err := checkLen(f.name, f.n, 0xff); err != nil {
+			return err
+		}
+	}
 	return nil
 }
 
@@ -250,6 +259,13 @@ func (a *AuthenContinue) Validate() error {
 			return err
 		}
 	}
+	// both fields have a two octet length
+	if err := checkLen("user_msg", a.UserMessage.Len(), 0xffff); err != nil {
+		return err
+	}
+	if err := checkLen("data", a.Data.Len(), 0xffff); err != nil {
+		return err
+	}
 	return nil
 }
 
@@ -369,6 +385,13 @@ func (a *AuthenReply) Validate() error {
 		if err := t.Validate(nil); err != nil {
 			return err
 		}
+	}
+	// both fields have a two octet length
+	if err := checkLen("server_msg", a.ServerMsg.Len(), 0xffff); err != nil {
+		return err
+	}
+	if err := checkLen("data", a.Data.Len(), 0xffff); err != nil {
+		return err
 	}
 	return nil
 }
